@@ -5,7 +5,7 @@
 From Coq Require Import List ZArith Bool Sorting.Sorted Sorting.Permutation.
 From Lox Require Import Rang3.RangeModel Rang3.ClassModel Rang3.RangeProofs Rang3.RangeProofsSub
   Rang3.RangeProofsClass Rang3.RangeProofsUniq Rang3.RangeProofsNorm.
-From Lox Require Import Lex.Utf8Model Gen.EscapeModel Gen.EscapeRune Gen.EscapeRuneProofs.
+From Lox Require Import Lex.Utf8Model Gen.EscapeModel Gen.EscapeRune Gen.EscapeRuneProofs Gen.PairProofs.
 Import ListNotations.
 Open Scope Z_scope.
 
@@ -134,3 +134,20 @@ Theorem C15_escape_oddities :
   class_char_rune [92; 85; 70; 70; 70; 70; 70; 70; 70; 70] = Some 65533.
 Proof. exact escape_oddities. Qed.
 Print Assumptions C15_escape_oddities.
+
+(* ---- x-y pairing of class items (on_char_class) ----
+   A class body written as items, each a character or character '-' character,
+   is read back as exactly those items, whatever the characters are (the
+   escaped dash, a CLASS_CHAR whose rune is 45, included). *)
+Theorem C15_pair_render : forall its, class_items (flat_map render its) = map denote its.
+Proof. exact pair_render. Qed.
+Print Assumptions C15_pair_render.
+
+(* an unescaped dash without a character on one side is a member, and an escaped dash never pairs *)
+Theorem C15_pair_dash_edges : forall a,
+  class_items [(false, a); (true, 45)] = [(a, a); (45, 45)] /\
+  class_items [(true, 45); (false, a)] = [(45, 45); (a, a)] /\
+  class_items [(false, a); (true, 45); (true, 45)] = [(a, 45)] /\
+  class_items [(false, a); (false, 45); (false, a)] = [(a, a); (45, 45); (a, a)].
+Proof. exact pair_dash_edges. Qed.
+Print Assumptions C15_pair_dash_edges.
